@@ -4,6 +4,8 @@ package c12
 // MerklizeJSONLD, (iv) structure-aware mutation, HashValue.
 
 import (
+	"bytes"
+	"context"
 	"encoding/json"
 	"fmt"
 	"math"
@@ -226,7 +228,7 @@ func (d *drv) siblingStream() {
 				}
 				jset(a.Cred, append(append(jpath{}, p...), "siblings"), clone(sibs))
 				in := verifyInput{Stream: "verify", Bundle: b.Name}
-				full := &Arte{Kind: a.Kind, Cred: cloneMap(a.Cred), DIDDoc: cloneMap(a.DIDDoc), Status: cloneMap(a.Status)}
+				full := a.copy()
 				in.Arte = full
 				d.rep.Count("hostile-siblings:" + n)
 				d.verifyCase(a, in, true)
@@ -243,7 +245,7 @@ func (d *drv) siblingStream() {
 			if b.Kind == "BJJSignature2021" {
 				a := b.Arte()
 				jset(a.Status, jpath{"mtp", "siblings"}, clone(sibs))
-				full := &Arte{Kind: a.Kind, Cred: cloneMap(a.Cred), DIDDoc: cloneMap(a.DIDDoc), Status: cloneMap(a.Status)}
+				full := a.copy()
 				d.verifyCase(a, verifyInput{Stream: "verify", Arte: full}, true)
 			}
 			// DID document / gist proof
@@ -256,7 +258,7 @@ func (d *drv) siblingStream() {
 			// a DID document that does not decode is a resolver error for VerifyProof
 			a := b.Arte()
 			jset(a.DIDDoc, jpath{"didDocument", "verificationMethod", 0, "global", "proof", "siblings"}, clone(sibs))
-			full := &Arte{Kind: a.Kind, Cred: cloneMap(a.Cred), DIDDoc: cloneMap(a.DIDDoc), Status: cloneMap(a.Status)}
+			full := a.copy()
 			d.verifyCase(a, verifyInput{Stream: "verify", Arte: full}, true)
 		}
 		// node_aux shapes (88617d1)
@@ -269,7 +271,7 @@ func (d *drv) siblingStream() {
 				a := b.Arte()
 				jset(a.Cred, jpath{"proof", 0, "mtp", "node_aux"}, clone(aux))
 				jset(a.Cred, jpath{"proof", 0, "mtp", "existence"}, false)
-				full := &Arte{Kind: a.Kind, Cred: cloneMap(a.Cred), DIDDoc: cloneMap(a.DIDDoc), Status: cloneMap(a.Status)}
+				full := a.copy()
 				d.verifyCase(a, verifyInput{Stream: "verify", Arte: full}, true)
 			}
 		}
@@ -340,7 +342,7 @@ func (d *drv) mutationStream() {
 		j := jobs[i]
 		a := j.b.Arte()
 		jset(a.doc(j.m.Doc), j.m.Path, clone(j.val))
-		full := &Arte{Kind: a.Kind, Cred: cloneMap(a.Cred), DIDDoc: cloneMap(a.DIDDoc), Status: cloneMap(a.Status)}
+		full := a.copy()
 		d.mu.Lock()
 		d.rep.Count("mutation:verify")
 		d.rep.Distinct("mut:" + j.b.Name + j.m.String() + fmt.Sprint(i%len(vals)))
@@ -573,7 +575,7 @@ func (d *drv) documentStream() ([]*rdfCase, error) {
 			d.rep.Fail("c12-merklizejsonld-memory", fmt.Sprintf("MerklizeJSONLD allocated %d bytes on a %d-byte document (%s)", o.Alloc, len(c.doc), c.why), input)
 		}
 		// model side: entries_from_rdf on the dataset json-gold produces, then the tail
-		if len(c.doc) > 2500 || jsonGoldPanic || o.Class == "hang" || strings.HasPrefix(c.why, "huge-") {
+		if len(c.doc) > 2500 || jsonGoldPanic || o.Class == "hang" || strings.HasPrefix(c.why, "huge-") || c.why == "int-hex" {
 			// (10^999999 is not something vm_compute evaluates: implementation side only)
 			continue
 		}
@@ -883,4 +885,106 @@ func modelledLexical(dt, s string) bool {
 		}
 	}
 	return true
+}
+
+// ------------------------------------------------- (v) HTTP answers of the resolvers
+func hostileBodies(valid []byte) map[string][]byte {
+	huge := append([]byte(`{"pad":"`), []byte(strings.Repeat("x", 3<<20))...)
+	huge = append(huge, []byte(`"}`)...)
+	return map[string][]byte{
+		"valid": valid, "null": []byte(`null`), "empty-array": []byte(`[]`), "empty-string": []byte(`""`), "empty-object": []byte(`{}`),
+		"no-body": {}, "number": []byte(`17`), "true": []byte(`true`), "not-json": []byte(`<html>502</html>`),
+		"truncated": valid[:len(valid)/2], "trailing": append(append([]byte{}, valid...), []byte(` {"x":1}`)...),
+		"huge": huge, "padded-17k": append(append([]byte{}, valid...), []byte(strings.Repeat(" ", 17*1024))...),
+		"nested-null": []byte(`{"didDocument":null,"issuer":null,"mtp":null}`),
+		"wrong-types": []byte(`{"didDocument":{"verificationMethod":{},"authentication":5},"issuer":[],"mtp":"x"}`),
+		"wrong-types-2": []byte(`{"didDocument":{"verificationMethod":[5,null,{"published":"yes"}]},"issuer":{"state":5},"mtp":{"siblings":{}}}`),
+		"deep": []byte(strings.Repeat("[", 20000) + strings.Repeat("]", 20000)),
+	}
+}
+
+type resolverInput struct {
+	Stream string     `json:"stream"` // did-resolver | status-resolver
+	Why    string     `json:"why"`
+	Answer *rawAnswer `json:"answer"`
+	Nonce  uint64     `json:"nonce,omitempty"`
+}
+
+func (d *drv) didResolveCase(ra *rawAnswer, why string) {
+	did, _ := w3cParse("did:polygonid:polygon:mumbai:2qLGnFZiHrhdNh5KwdkGvbCN1sR2pUaBpBahAXC3zf?state=aa")
+	o := guard(watchdog, func() error {
+		_, err := httpDIDResolver(ra).Resolve(context.Background(), did)
+		return err
+	})
+	in := resolverInput{Stream: "did-resolver", Why: why, Answer: ra}
+	if len(ra.Body) > 4096 {
+		in.Answer = &rawAnswer{Code: ra.Code, Body: []byte("regenerate:" + why)}
+	}
+	d.rep.Evaluations++
+	d.rep.Count("did-resolver:" + o.Class)
+	d.rep.Distinct("didres:" + why + fmt.Sprint(ra.Code))
+	if o.Class == "panic" || o.Class == "hang" {
+		if bytes.Equal(bytes.TrimSpace(ra.Body), []byte("null")) && o.Class == "panic" && !strings.Contains(o.Site, "merkletree") {
+			d.rep.Fail("c12-did-resolver-null-answer", fmt.Sprintf("HTTPDIDResolver.Resolve: panic at %s: %s on the body `null`", o.Site, o.Msg), in)
+		} else {
+			d.fail("HTTPDIDResolver.Resolve", o, in)
+		}
+	}
+	d.addCase(lit("IResolve "+didAnswerFacts(ra)), o.Class, in)
+}
+
+func (d *drv) statusResolveCase(ra *rawAnswer, nonce uint64, why string) {
+	o := runStatusRaw(ra, nonce, "")
+	in := resolverInput{Stream: "status-resolver", Why: why, Answer: ra, Nonce: nonce}
+	if len(ra.Body) > 4096 {
+		in.Answer = &rawAnswer{Code: ra.Code, Body: []byte("regenerate:" + why)}
+	}
+	d.rep.Evaluations++
+	d.rep.Count("status-resolver:" + o.Class)
+	d.rep.Distinct("stres:" + why + fmt.Sprint(ra.Code))
+	if o.Class == "panic" || o.Class == "hang" {
+		d.fail("ValidateCredentialStatus(IssuerResolver)", o, in)
+	}
+	d.addCase(lit("IStatus "+StatusFRaw(&Arte{StatusRaw: ra}, nonce)), o.Class, in)
+}
+
+func (d *drv) resolverStream() {
+	b := d.bundles[1] // smt-published: the DID answer decides; bjj-published for the status answer
+	bj := d.bundles[0]
+	didBodies := hostileBodies(mustJSON(b.DIDDoc))
+	stBodies := hostileBodies(mustJSON(bj.Status))
+	names := make([]string, 0, len(didBodies))
+	for n := range didBodies {
+		names = append(names, n)
+	}
+	sortStrings(names)
+	for _, n := range names {
+		for _, code := range []int{200, 204, 301, 404, 500} {
+			if code != 200 && n != "valid" && n != "null" && n != "no-body" {
+				continue
+			}
+			ra := &rawAnswer{Code: code, Body: didBodies[n]}
+			d.didResolveCase(ra, n)
+			a := b.Arte()
+			a.DIDRaw = ra
+			d.verifyCase(a, verifyInput{Stream: "verify", Arte: a.copy()}, len(ra.Body) < 4096)
+			rs := &rawAnswer{Code: code, Body: stBodies[n]}
+			d.statusResolveCase(rs, bj.Nonce, n)
+			a2 := bj.Arte()
+			a2.StatusRaw = rs
+			d.verifyCase(a2, verifyInput{Stream: "verify", Arte: a2.copy()}, len(rs.Body) < 4096)
+		}
+	}
+	te := &rawAnswer{Transport: true}
+	d.didResolveCase(te, "transport-error")
+	d.statusResolveCase(te, bj.Nonce, "transport-error")
+	// D12 through the resolvers' decoders
+	for n, sibs := range siblingLists() {
+		dd := cloneMap(b.DIDDoc)
+		jset(dd, jpath{"didDocument", "verificationMethod", 0, "global", "proof", "siblings"}, clone(sibs))
+		d.didResolveCase(&rawAnswer{Code: 200, Body: mustJSON(dd)}, "siblings="+n)
+		st := cloneMap(bj.Status)
+		jset(st, jpath{"mtp", "siblings"}, clone(sibs))
+		d.statusResolveCase(&rawAnswer{Code: 200, Body: mustJSON(st)}, bj.Nonce, "siblings="+n)
+	}
 }
